@@ -734,6 +734,16 @@ def cfg_inputs(draw):
             k = draw(st.sampled_from([1, None, True, 2.5] + NATIVE_KEYS))
             dd[p[-1]] = {k: 1, "a": 2}
             labels.update(["free_nonstring_key"] + (["free_native_key"] if k in NATIVE_KEYS else []))
+    # 1 case in 5: the SAME misspelt key under 2-3 sections with different allowed-key sets (a hint computed for one
+    # section must not be replayed for another)
+    if draw(st.sampled_from([True, False, False, False, False])):
+        s1 = draw(st.sampled_from(SECTION_PATHS))
+        key = _typo(draw, draw(st.sampled_from(sorted(_allowed(s1)))))
+        for sec in [s1] + draw(st.lists(st.sampled_from(SECTION_PATHS), min_size=1, max_size=2)):
+            d = _descend(cfg, sec)
+            if d is not None and key not in _allowed(sec):
+                d[key] = 1
+                labels.update(["unknown_key", "typo_key", "shared_typo"])
     # 1 case in 4: one or two edits that make the validator repeat a message (different kinds interleave)
     for _ in range(draw(st.sampled_from([0, 0, 0, 0, 0, 0, 1, 2]))):
         apply_dup(_HypChooser(draw), cfg, labels)
@@ -934,6 +944,76 @@ def _call(fn, cfg, case, what, rec, snap0, ConfigError, **kw):
 
 COMPAT_KWARGS = [{"strict": False}, {"verbose": True}, {"strict": False, "verbose": False}]
 
+# ---------------------------------------------------------------- history independence (purity across calls)
+# The verdict and the messages of a config must not depend on what the process validated before.  A sibling config carries
+# the SAME unknown keys under OTHER sections (other allowed-key sets, so another did-you-mean answer): validating it first
+# must change nothing, in this process (A, sibling, A) and against a fresh interpreter (warm view vs CLI / cold child).
+_SIB_TARGETS = [(), ("t1",), ("t1", "cache"), ("t4",), ("t4", "cache"), ("graph", "update"), ("t2", "hybrid"), ("t3", "llm"),
+                ("perf", "parallel"), ("t2", "quality", "mmr"), ("graph",), ("t3",)]
+
+
+def _allowed(sec):
+    return set(TREE.keys()) if not sec else set(_subtree(sec).keys())
+
+
+def unknown_keys(cfg):
+    """[(section path, key)] for keys of `cfg` the frozen tree does not list (in the validator's look-up order)."""
+    out = []
+    for sec in SECTION_PATHS:
+        d = get_path(cfg, sec, None) if sec else cfg
+        if isinstance(d, dict):
+            out.extend((sec, k) for k in d if not (isinstance(k, str) and k in _allowed(sec)))
+    return out
+
+
+def sibling_configs(cfg, limit=4):
+    out = []
+    if not isinstance(cfg, dict):
+        return out
+    for sec, k in unknown_keys(cfg)[:limit]:
+        text = str(k)
+        start = (len(text) + sum(map(ord, text))) % len(_SIB_TARGETS)
+        for j in range(len(_SIB_TARGETS)):
+            tgt = _SIB_TARGETS[(start + j) % len(_SIB_TARGETS)]
+            if tgt != sec and _allowed(tgt) != _allowed(sec) and not (isinstance(k, str) and k in _allowed(tgt)):
+                out.append(_nest(tgt, {k: 1}) if tgt else {k: 1})
+                break
+    return out
+
+
+def warm_with_siblings(cfg):
+    """Validate the siblings of `cfg` (results ignored; the validator's own failures are the other oracles' business)."""
+    _, validate_config_api, _, _ = _apis()
+    n = 0
+    for sib in sibling_configs(cfg):
+        try:
+            validate_config_api(sib)
+        except Exception:
+            pass
+        n += 1
+    return n
+
+
+_HINT_ENTRY_RE = re.compile(r"^(.*) unknown (top-level key|key) \(did you mean '([^'\n]*)'\)$", re.S)
+
+
+def check_hint_content(entries, case):
+    """A did-you-mean hint must name a key that is allowed in the section the message is about."""
+    for e in entries:
+        m = _HINT_ENTRY_RE.match(e)
+        if not m:
+            continue
+        path, kind, hint = m.group(1), m.group(2), m.group(3)
+        if kind == "top-level key":
+            ok = hint in TREE
+        else:
+            secs = [sec for sec in SECTION_PATHS if sec and path.startswith(".".join(sec) + ".")]
+            if not secs:  # a fragment of an echoed key that contains a line break: nothing to decide
+                continue
+            ok = any(hint in _allowed(sec) for sec in secs)
+        if not ok:
+            raise Violation(f"message suggests a key that is not allowed in that section: {e!r}", case, "hint-not-allowed-here")
+
 
 def validator_view(cfg, case, rec):
     """Run every in-process API variant on the SAME object; check totality, purity and mutual agreement.
@@ -1006,6 +1086,7 @@ def validator_view(cfg, case, rec):
             raise Violation(f"message lines differ: validate_config={lines!r} {name}={ls!r}", case, "messages-disagree")
     if list(warns_c) != []:
         raise Violation("compat form returned warnings together with errors", case, "compat-shape")
+    check_hint_content(list(errs_api), case)
     return {"ok": False, "lines": lines, "raw": str(r_plain[1]), "norm": None, "warnings": []}
 
 
@@ -1255,6 +1336,13 @@ def check_total(cfg, rec=None, tmpdir=None, labels=(), with_cli=True):
             out_labels.append("suggestion")
         if has_dup_lines(view):
             out_labels.append("dup_message_lines")
+        if not view["ok"] and warm_with_siblings(cfg):
+            _, validate_config_api, _, _ = _apis()
+            again = validate_config_api(cfg)
+            if list(again[1]) != view["lines"] or bool(again[0]):
+                raise Violation(f"messages change after validating another config that carries the same unknown keys elsewhere: "
+                                f"before={view['lines']!r} after={list(again[1])!r}", case, "history-dependent")
+            out_labels.append("history_probe")
     if not with_cli:
         return view, out_labels
     own_tmp = None
@@ -1451,19 +1539,27 @@ import hashlib
 from checks.c14 import dec, canon
 from configs.validate import validate_config_api, validate_config_verbose
 from clematis.errors import ConfigError
+from checks.c14 import warm_with_siblings
 cases = json.load(open(sys.argv[1], encoding="utf-8"))
-out = []
-for c in cases:
+mode = sys.argv[3] if len(sys.argv) > 3 else "plain"
+order = list(range(len(cases)))
+if mode == "reversed":
+    order.reverse()
+out = [None] * len(cases)
+for i in order:
+    c = cases[i]
     try:
         cfg = dec(c)
+        if mode == "warm":
+            warm_with_siblings(cfg)
         ok, errs, norm = validate_config_api(cfg)
         row = [bool(ok), list(errs)]
         if ok:  # normalised dict and warnings must not depend on the hash seed either
             row.append(hashlib.sha1(repr(canon(norm)).encode()).hexdigest()[:16])
             row.append(list(validate_config_verbose(cfg)[1]))
-        out.append(row)
+        out[i] = row
     except Exception as e:
-        out.append(["exc", type(e).__name__])
+        out[i] = ["exc", type(e).__name__]
 json.dump(out, open(sys.argv[2], "w", encoding="utf-8"))
 """
 
@@ -1475,6 +1571,9 @@ def _child_env(hashseed: str):
     return env
 
 
+_HS_MODE = {"1": "warm", "2": "reversed"}
+
+
 def eval_under_hashseeds(encoded_cases, seeds=("0", "1", "2", "random")):
     work = tempfile.mkdtemp(prefix="c14_hs_", dir=os.environ.get("VERIF_TMP") or None)
     try:
@@ -1484,7 +1583,9 @@ def eval_under_hashseeds(encoded_cases, seeds=("0", "1", "2", "random")):
         res = {}
         for hs in seeds:
             outp = os.path.join(work, f"out_{hs}.json")
-            p = subprocess.run([sys.executable, "-c", _CHILD, inp, outp], env=_child_env(hs), cwd=work,
+            # besides the hash seed the children differ in HISTORY: "1" validates sibling configs (same unknown keys under
+            # other sections) before each case, "2" walks the batch backwards; "0" and "random" take it cold and in order
+            p = subprocess.run([sys.executable, "-c", _CHILD, inp, outp, _HS_MODE.get(hs, "plain")], env=_child_env(hs), cwd=work,
                                stdout=subprocess.PIPE, stderr=subprocess.STDOUT)
             if p.returncode != 0 or not os.path.exists(outp):
                 raise RuntimeError(f"c14 hashseed child failed rc={p.returncode}\n{p.stdout.decode(errors='replace')[-2000:]}")
@@ -1530,6 +1631,12 @@ def _report_hashseed(rec, cfg, per_seed):
     if only_hints and _is_known(rec, KNOWN_HINT):
         return
     case = {"cfg": enc(cfg)}
+    cold = {json.dumps(per_seed[hs], sort_keys=True) for hs in per_seed if hs not in _HS_MODE}
+    if len(cold) == 1:  # the cold in-order children agree: what differs is what was validated BEFORE this config
+        rec.violation("hashseed: messages depend on the validation history of the process (1: sibling configs with the same unknown keys "
+                      "validated first, 2: batch walked backwards): " + "; ".join(f"{hs}: {m!r}" for hs, m in sorted(msgs.items())),
+                      case, "history-dependent")
+        return
     rec.violation(f"hashseed: messages depend on PYTHONHASHSEED: " + "; ".join(f"{hs}: {m!r}" for hs, m in sorted(msgs.items())),
                   case, "hint-hashseed" if only_hints else "hashseed-dependent")
 
@@ -1607,8 +1714,9 @@ def check_cli_case(cfg, hashseed="0", rec=None, forms=0):
     if rt is None:
         return ["cli_unrepresentable"]
     text, arg = rt
+    warmed = warm_with_siblings(arg)  # the CLI runs in a fresh interpreter; the in-process view is made as warm as can be
     view = validator_view(arg, case, rec)
-    labels = []
+    labels = ["warmed"] if warmed else []
     work = tempfile.mkdtemp(prefix="c14_clip_", dir=os.environ.get("VERIF_TMP") or None)
     try:
         path = os.path.join(work, "cfg.yaml")
